@@ -66,6 +66,20 @@ PROPS["C06"] = {
     "technique": "Lean 4 round-trip theorems (encode → transport → decode) over a byte-level model of the uri codecs; model=code by exhaustive admission grid + differential correspondence of outcomes and wires",
 }
 
+PROPS["C13"] = {
+    "lean_modules": ["Ogen.Props.C13"],
+    "suites": ["c13"],
+    "trusted_base": [
+        KERNEL, HARNESS,
+        "statements in lean/Ogen/Props/C13.lean; model IntRT (digit loop of FormatInt/FormatUint, syntax+range of ParseInt/ParseUint, FormatBool/ParseBool) hand-written from strconv's documented behaviour; tie = line-by-line comparison with conv.Int64ToString/Uint64ToString and conv.ToInt*/ToUint* (all widths) on boundary/random values and hostile strings",
+        "NOT proved (standard-library contracts, exercised on the implementation only): ParseFloat∘FormatFloat(-1, bits), time.Parse∘Format for the date/time/date-time layouts, time.ParseDuration∘Duration.String and ogen's formatDuration port, uuid.Parse∘String and ogen's hexEncode, netip/MAC/url round trips, Unix timestamp arithmetic",
+    ],
+    "assumptions": ["non-finite floats are outside the domain", "date-time/time resolution is one second (the layouts carry no fraction); years 0–9999"],
+    "level_text": "partial: uint_rt/int_rt (every value of every width, parametric in the bit size), int_syntax and bool_rt are Lean theorems about a model of strconv tied to the code differentially; every other helper pair (floats, durations, times, Unix units, UUID, IP, MAC, URL; conv and json) is checked on the implementation only — exhaustive for 8/16-bit integers and booleans, boundary + random elsewhere — because it rests on stdlib contracts the model does not contain",
+    "level_note": "trusted: Lean kernel, statements, model of strconv integer/boolean text + its differential tie, the Go harness; stdlib float/time/uuid/netip/url contracts are assumptions tested on every run, not theorems.",
+    "technique": "Lean 4 round-trip theorems for integer/boolean text, parametric in the width; differential tie to conv; implementation-only exhaustive/random round trips for stdlib-backed formats",
+}
+
 # properties not claimed, with the reason (kept current; see DESIGN.md §7)
 NOT_CLAIMED = {
     "C10": "not applicable: determinism/race-freedom of generation lives in Go map iteration order, goroutine scheduling and the memory model; no executable model separate from the runtime can express it (DESIGN.md §7)",
